@@ -1,6 +1,7 @@
 package main
 
 import (
+	"io"
 	"bufio"
 	"crypto/sha256"
 	"encoding/hex"
@@ -160,6 +161,15 @@ func c07RecipeFormatted(kind int, seed int64, rec *visitRec) (f *jen.File, small
 		small := len(m)
 		if n < small || small < 2 {
 			small = n
+		}
+		if r.Intn(4) == 0 {
+			// the File was rendered before under another PackagePrefix (a setting changed between two uses): the names
+			// handed out then stay, and nothing may depend on the order in which the table is walked
+			old := f.PackagePrefix
+			f.PackagePrefix = map[bool]string{true: "", false: "old"}[old == "old"]
+			f.Render(io.Discard)
+			f.PackagePrefix = []string{"pk", "qq", ""}[r.Intn(3)]
+			return f, small, fmt.Sprintf("importnames[%d hints, %d paths] rendered once under another prefix before", len(m), n)
 		}
 		return f, small, fmt.Sprintf("importnames[%d hints, %d paths]", len(m), n)
 	case 3: // import scenarios (hints in maps, Dict contexts, dot imports…)
